@@ -323,7 +323,7 @@ package join
   ensures (=> (= result1 vnil) (not (= result0 vnil)))
 @*/
 /*@ func join.ServicePodsWith$1
-  props C09
+  props C09 C20
   theory joins
   requires (and (not (= {srcController} vnil)) (not (= {dst} vnil)) (not (= {filterFn} vnil)) (not (= {log} vnil)))
   ghost lastObjs : (Slice V) := {objs}
@@ -341,7 +341,7 @@ package join
   exit [refilters-unless-the-source-cache-could-not-be-listed] (or refiltered (not listOK))
 @*/
 /*@ func join.ServicePodsWith$2
-  props C09
+  props C09 C20 C08
   theory joins
   requires (and (not (= {dst} vnil)) (not (= {filterFn} vnil)))
   ghost lastFilter : V := vnil
@@ -354,7 +354,7 @@ package join
   exit [always-refilters-so-the-join-becomes-ready-even-for-an-empty-source] refiltered
 @*/
 /*@ func join.ServicePodsWith$3
-  props C09 C11 C12
+  props C09 C11 C12 C20
   theory joins
   requires (and (not (= {dst} vnil)) (not (= {monitor} vnil)))
   ghost doneSeen : Bool := false
@@ -396,7 +396,7 @@ package join
   ensures (=> (= result1 vnil) (not (= result0 vnil)))
 @*/
 /*@ func join.RCPodsWith$1
-  props C09
+  props C09 C20
   theory joins
   requires (and (not (= {srcController} vnil)) (not (= {dst} vnil)) (not (= {filterFn} vnil)) (not (= {log} vnil)))
   ghost lastObjs : (Slice V) := {objs}
@@ -414,7 +414,7 @@ package join
   exit [refilters-unless-the-source-cache-could-not-be-listed] (or refiltered (not listOK))
 @*/
 /*@ func join.RCPodsWith$2
-  props C09
+  props C09 C20 C08
   theory joins
   requires (and (not (= {dst} vnil)) (not (= {filterFn} vnil)))
   ghost lastFilter : V := vnil
@@ -427,7 +427,7 @@ package join
   exit [always-refilters-so-the-join-becomes-ready-even-for-an-empty-source] refiltered
 @*/
 /*@ func join.RCPodsWith$3
-  props C09 C11 C12
+  props C09 C11 C12 C20
   theory joins
   requires (and (not (= {dst} vnil)) (not (= {monitor} vnil)))
   ghost doneSeen : Bool := false
@@ -469,7 +469,7 @@ package join
   ensures (=> (= result1 vnil) (not (= result0 vnil)))
 @*/
 /*@ func join.RSPodsWith$1
-  props C09
+  props C09 C20
   theory joins
   requires (and (not (= {srcController} vnil)) (not (= {dst} vnil)) (not (= {filterFn} vnil)) (not (= {log} vnil)))
   ghost lastObjs : (Slice V) := {objs}
@@ -487,7 +487,7 @@ package join
   exit [refilters-unless-the-source-cache-could-not-be-listed] (or refiltered (not listOK))
 @*/
 /*@ func join.RSPodsWith$2
-  props C09
+  props C09 C20 C08
   theory joins
   requires (and (not (= {dst} vnil)) (not (= {filterFn} vnil)))
   ghost lastFilter : V := vnil
@@ -500,7 +500,7 @@ package join
   exit [always-refilters-so-the-join-becomes-ready-even-for-an-empty-source] refiltered
 @*/
 /*@ func join.RSPodsWith$3
-  props C09 C11 C12
+  props C09 C11 C12 C20
   theory joins
   requires (and (not (= {dst} vnil)) (not (= {monitor} vnil)))
   ghost doneSeen : Bool := false
@@ -542,7 +542,7 @@ package join
   ensures (=> (= result1 vnil) (not (= result0 vnil)))
 @*/
 /*@ func join.DeploymentPodsWith$1
-  props C09
+  props C09 C20
   theory joins
   requires (and (not (= {srcController} vnil)) (not (= {dst} vnil)) (not (= {filterFn} vnil)) (not (= {log} vnil)))
   ghost lastObjs : (Slice V) := {objs}
@@ -560,7 +560,7 @@ package join
   exit [refilters-unless-the-source-cache-could-not-be-listed] (or refiltered (not listOK))
 @*/
 /*@ func join.DeploymentPodsWith$2
-  props C09
+  props C09 C20 C08
   theory joins
   requires (and (not (= {dst} vnil)) (not (= {filterFn} vnil)))
   ghost lastFilter : V := vnil
@@ -573,7 +573,7 @@ package join
   exit [always-refilters-so-the-join-becomes-ready-even-for-an-empty-source] refiltered
 @*/
 /*@ func join.DeploymentPodsWith$3
-  props C09 C11 C12
+  props C09 C11 C12 C20
   theory joins
   requires (and (not (= {dst} vnil)) (not (= {monitor} vnil)))
   ghost doneSeen : Bool := false
@@ -615,7 +615,7 @@ package join
   ensures (=> (= result1 vnil) (not (= result0 vnil)))
 @*/
 /*@ func join.DaemonSetPodsWith$1
-  props C09
+  props C09 C20
   theory joins
   requires (and (not (= {srcController} vnil)) (not (= {dst} vnil)) (not (= {filterFn} vnil)) (not (= {log} vnil)))
   ghost lastObjs : (Slice V) := {objs}
@@ -633,7 +633,7 @@ package join
   exit [refilters-unless-the-source-cache-could-not-be-listed] (or refiltered (not listOK))
 @*/
 /*@ func join.DaemonSetPodsWith$2
-  props C09
+  props C09 C20 C08
   theory joins
   requires (and (not (= {dst} vnil)) (not (= {filterFn} vnil)))
   ghost lastFilter : V := vnil
@@ -646,7 +646,7 @@ package join
   exit [always-refilters-so-the-join-becomes-ready-even-for-an-empty-source] refiltered
 @*/
 /*@ func join.DaemonSetPodsWith$3
-  props C09 C11 C12
+  props C09 C11 C12 C20
   theory joins
   requires (and (not (= {dst} vnil)) (not (= {monitor} vnil)))
   ghost doneSeen : Bool := false
@@ -688,7 +688,7 @@ package join
   ensures (=> (= result1 vnil) (not (= result0 vnil)))
 @*/
 /*@ func join.StatefulSetPodsWith$1
-  props C09
+  props C09 C20
   theory joins
   requires (and (not (= {srcController} vnil)) (not (= {dst} vnil)) (not (= {filterFn} vnil)) (not (= {log} vnil)))
   ghost lastObjs : (Slice V) := {objs}
@@ -706,7 +706,7 @@ package join
   exit [refilters-unless-the-source-cache-could-not-be-listed] (or refiltered (not listOK))
 @*/
 /*@ func join.StatefulSetPodsWith$2
-  props C09
+  props C09 C20 C08
   theory joins
   requires (and (not (= {dst} vnil)) (not (= {filterFn} vnil)))
   ghost lastFilter : V := vnil
@@ -719,7 +719,7 @@ package join
   exit [always-refilters-so-the-join-becomes-ready-even-for-an-empty-source] refiltered
 @*/
 /*@ func join.StatefulSetPodsWith$3
-  props C09 C11 C12
+  props C09 C11 C12 C20
   theory joins
   requires (and (not (= {dst} vnil)) (not (= {monitor} vnil)))
   ghost doneSeen : Bool := false
@@ -761,7 +761,7 @@ package join
   ensures (=> (= result1 vnil) (not (= result0 vnil)))
 @*/
 /*@ func join.JobPodsWith$1
-  props C09
+  props C09 C20
   theory joins
   requires (and (not (= {srcController} vnil)) (not (= {dst} vnil)) (not (= {filterFn} vnil)) (not (= {log} vnil)))
   ghost lastObjs : (Slice V) := {objs}
@@ -779,7 +779,7 @@ package join
   exit [refilters-unless-the-source-cache-could-not-be-listed] (or refiltered (not listOK))
 @*/
 /*@ func join.JobPodsWith$2
-  props C09
+  props C09 C20 C08
   theory joins
   requires (and (not (= {dst} vnil)) (not (= {filterFn} vnil)))
   ghost lastFilter : V := vnil
@@ -792,7 +792,7 @@ package join
   exit [always-refilters-so-the-join-becomes-ready-even-for-an-empty-source] refiltered
 @*/
 /*@ func join.JobPodsWith$3
-  props C09 C11 C12
+  props C09 C11 C12 C20
   theory joins
   requires (and (not (= {dst} vnil)) (not (= {monitor} vnil)))
   ghost doneSeen : Bool := false
@@ -834,7 +834,7 @@ package join
   ensures (=> (= result1 vnil) (not (= result0 vnil)))
 @*/
 /*@ func join.IngressServicesWith$1
-  props C09
+  props C09 C20
   theory joins
   requires (and (not (= {srcController} vnil)) (not (= {dst} vnil)) (not (= {filterFn} vnil)) (not (= {log} vnil)))
   ghost lastObjs : (Slice V) := {objs}
@@ -852,7 +852,7 @@ package join
   exit [refilters-unless-the-source-cache-could-not-be-listed] (or refiltered (not listOK))
 @*/
 /*@ func join.IngressServicesWith$2
-  props C09
+  props C09 C20 C08
   theory joins
   requires (and (not (= {dst} vnil)) (not (= {filterFn} vnil)))
   ghost lastFilter : V := vnil
@@ -865,7 +865,7 @@ package join
   exit [always-refilters-so-the-join-becomes-ready-even-for-an-empty-source] refiltered
 @*/
 /*@ func join.IngressServicesWith$3
-  props C09 C11 C12
+  props C09 C11 C12 C20
   theory joins
   requires (and (not (= {dst} vnil)) (not (= {monitor} vnil)))
   ghost doneSeen : Bool := false
